@@ -136,6 +136,17 @@ def r16_2_3(ctx):
             bad = "order is %s" % [x for x in names if x in ("self.declare_ns", "self.bind_attr_qname", "self.bind_qname")]
     if bad is None and seen != {"self.declare_ns", "self.bind_attr_qname"}:
         bad = "declare_ns / bind_attr_qname are never reached"
+    # the declarations collected for this tag are taken out of current_namespace on EVERY path (pushed as the element's scope
+    # or dropped): left in place they would still be in force for whatever follows an empty-element tag
+    resets = None
+    for pc in nfq.feasible(pcs):
+        k = sum(1 for a, _ in pc["actions"] if a in ("replace self.current_namespace", "take self.current_namespace"))
+        q = [i for i, x in enumerate(nfq.names(pc)) if x == "self.bind_qname"]
+        r = [i for i, x in enumerate(nfq.names(pc)) if x in ("replace self.current_namespace", "take self.current_namespace")]
+        if k != 1 or not q or r[0] < q[0]:
+            resets = "a path of process_namespaces %s: the tag's declarations stay in current_namespace and are still in force for the following content" % (
+                "does not empty current_namespace" if k == 0 else "empties current_namespace %d times or before the tag's own name is bound" % k)
+    ctx.ob("R16.3", "current-namespace-emptied-on-every-path", resets is None, resets or "current_namespace is replaced by an empty map exactly once on every path, after the tag's name is bound")
     ctx.ob("R16.3", "declarations-before-binding", bad is None, bad or "declarations are processed first, then attribute names are bound, then the tag's own name")
 
 
@@ -166,6 +177,30 @@ def run(ctx):
     ctx.guard("R16.1", "balance", lambda: r16_1(ctx))
     ctx.guard("R16.2", "lookup", lambda: r16_2_3(ctx))
     ctx.guard("R16.4", "dedup", lambda: r16_4(ctx))
+
+    def attr_order():
+        """the tokenizer extends a tag's attribute list only by push (ordinary attribute) or insert(0, _) (namespace declaration):
+        the attributes that are not declarations keep their source order, and nothing permutes the list"""
+        T = ctx.tables("xml")
+        pcs = T["helpers"].get("finish_attribute")
+        if not pcs:
+            raise AnchorMissing("xml tokenizer finish_attribute not tabulated")
+        bad = None
+        k = 0
+        for pc in pcs:
+            for a, args in pc["actions"]:
+                if a.startswith("self.current_tag_attrs."):
+                    k += 1
+                    m = a.rsplit(".", 1)[-1]
+                    decl = any(v and ("matches atom:xmlns" in g or "matches Some(atom:xmlns)" in g) for g, v in pc["guards"].items())
+                    if m == "push" and not decl:
+                        continue
+                    if m == "insert" and decl and args and str(args[0]) == "0":
+                        continue
+                    bad = "finish_attribute does `current_tag_attrs.%s(%s)` on a %s path: the relative order of the tag's attributes is not preserved" % (m, ",".join(str(x)[:30] for x in args), "declaration" if decl else "non-declaration")
+        ctx.ob("R16.4", "attribute-list-order-preserved", bad is None and k >= 3, bad or "%d writes: push for attributes, insert(0, _) for namespace declarations, nothing else" % k, "xml5ever tokenizer finish_attribute")
+
+    ctx.guard("R16.4", "attr-order", attr_order)
     ctx.guard("R16.5", "nf-tb", lambda: nf_common.nf_rule(ctx, "R16.5", TB, floor=45))
     ctx.guard("R16.5", "nf-tok-misc", lambda: nf_common.nf_rule(ctx, "R16.5", "xml_tokenizer_misc", only=("process_qname", "equiv_modulo_attr_order")))
     ctx.guard("R16.5", "nf-qname", lambda: nf_common.nf_rule(ctx, "R16.5", "xml_driver", only=("qname",)))
